@@ -297,6 +297,22 @@ def gen(rng, idx, tier):
                     tags.append((t, "dflt"))
         ls = tags
     features, rules = S.gsub_alternates(rng, desc, languagesystems=ls, rules=rules)
+    stale_classes = 0
+    if rng.random() < 0.15 and groups:
+        # glyph classes left in the user's feature file by an earlier export, named the way the
+        # writer names its own kerning classes (@kern1.<Script>.<group>) but with other members:
+        # the writer has to steer clear of the names, the UFO groups stay what decides
+        lines = []
+        for gname in sorted(groups):
+            side, _, short = gname[len("public."):].partition(".")
+            for sc in list(used_scripts) + ["Default"]:
+                if rng.random() < 0.6:
+                    lines.append("@%s.%s.%s = [%s];" % (
+                        side, sc, short, rng.choice([n for n in names if n not in skip] or names)))
+        stale_classes = len(lines)
+        fl = features.split("\n")
+        k = max([i for i, l in enumerate(fl) if l.startswith("languagesystem")] + [-1]) + 1
+        features = "\n".join(fl[:k] + lines + fl[k:])
     ds_rules = None
     if stratum == "default" and rng.random() < 0.08:
         # the font as the default master of a two-master designspace with two RULES that swap the
@@ -371,7 +387,7 @@ def gen(rng, idx, tier):
             "ufo": {"glyphs": glyphs, "kerning": kerning, "groups": groups, "features": features,
                     "lib": lib, "info": {"unitsPerEm": 1000, "familyName": "T", "styleName": "R"}},
             "rules": rules, "ds_rules": ds_rules, "lib": rng.choice(["defcon", "ufoLib2"]),
-            "writer": writer,
+            "writer": writer, "stale_classes": stale_classes,
             "quantization": rng.choice([1, 1, 5, 2, 10]), "skip": skip}
 
 
@@ -489,6 +505,8 @@ def run(case):
         bump("fonts_without_gpos")
     else:
         bump("fonts_judged")
+    if case.get("stale_classes"):
+        bump("fonts_with_stale_user_classes_named_like_generated_ones")
     if case.get("chain"):
         bump("script_chain_fonts")
     if case["writer"] == "legacy":
